@@ -143,7 +143,8 @@ class Variant:
                 lines.append("  generator = 1")
             if s.rsp:
                 lines.append("  rspfile = " + s.rsp[0])
-                lines.append("  rspfile_content = " + s.rsp[1])
+                # a literally empty value is rejected by the parser; an empty *evaluated* content is legal
+                lines.append("  rspfile_content = " + (s.rsp[1] if s.rsp[1] else "$rsp_nothing"))
         for i, s in enumerate(self.stmts):
             l = "build " + " ".join(esc_path(o) for o in s.outs)
             if s.iouts:
